@@ -7,7 +7,7 @@ ID = "C05"
 AREA = M.AREA
 LEAN_PROPS = "Litep2pVerif.Props.C05"
 THEOREMS = ["no_dup_outcome", "dial_ledger", "quiescent_dialable", "addr_total", "dial_address_parses_for_tcp",
-            "dial_address_peers_agree", "protocol_dial_ledger", "protocol_dial_joins",
+            "dial_address_peers_agree", "transport_dial_total_on_accepted_shapes", "protocol_dial_ledger", "protocol_dial_joins",
             "protocol_notified_despite_full_channel", "facade_reports_every_outcome"]
 MANIFEST = {
     "text": "Lean 4 theorems about an executable operational model of the connection manager with a ghost ledger of accepted "
@@ -35,7 +35,13 @@ MANIFEST = {
             "Litep2p::dial / dial_address and every operation polls Litep2p::next_event to quiescence, printing the "
             "Litep2pEvents the user sees) against the model, plus an outcome-ledger oracle per attempt and per protocol, at the "
             "facade level on the user events (failure reports carry no connection id: each concluded attempt is owed exactly "
-            "one report naming what the transport reported; never silence at quiescence, never a report nobody is owed).",
+            "one report naming what the transport reported; never silence at quiescence, never a report nobody is owed). "
+            "Coverage round mgr2: the scripted transport owns a REAL TcpTransport (built from the real transport_handle, never "
+            "polled) and returns the Result of its real synchronous dial/open; transport_dial_total_on_accepted_shapes: every "
+            "address dial_address / dial hand to the transport passes the synchronous part of TcpTransport::dial/open (the "
+            "address parser, nothing else) — ports 0/65535, unspecified/broadcast/loopback/multicast hosts included — so the `?` "
+            "after Transport::dial that would leave the peer Dialing forever is never taken; a synchronous refusal added to the "
+            "real transport is a disagreement with the model and an `error-changes-state`/`wedged` verdict of the oracle.",
     "note": "Trusted: Lean kernel; axioms propext/Quot.sound/Classical.choice; the model and its sampled tie; the environment "
             "contract `allowed` (events only for outstanding obligations, accept succeeds, dial/open/negotiate return Ok — "
             "proved for dial via dial_address_parses_for_tcp, read off tcp/mod.rs for open/negotiate); TcpTransport's own "
@@ -48,7 +54,8 @@ MANIFEST = {
 RULE = ("closed-loop seeded histories (limit configs none/0/1/2/(3,2)/mixed; 2-3 peers x 3 addresses; dial, dial_address, "
         "add_known_address, open/negotiate success and failure, simultaneous inbound connections, limit rejections, accept "
         "results, closures; <= 25 events; 5-15 % of cases with contract-breaking events) plus a stream of adversarial "
-        "multiaddress shapes for dial_address; in half of the histories 1-3 protocols with event channels of capacity 1-3 "
+        "multiaddress shapes for dial_address incl. boundary targets (port 0 / 65535, unspecified, broadcast, loopback, "
+        "multicast, link-local hosts; also through add_known_address + dial = Transport::open); in half of the histories 1-3 protocols with event channels of capacity 1-3 "
         "are installed, dial by peer id / address through the manager handle (limit configs under which queued dials fail), "
         "their channels are filled before and drained after outcomes are delivered (manager blocked inside next()), "
         "application calls are tried while it is blocked; open failures carry one error per address, a subset, or NO error "
@@ -60,7 +67,9 @@ TRUSTED_BASE = ["Lean 4.33 kernel", "axioms: propext, Quot.sound, Classical.choi
                 "the environment contract `allowed` of Model/Manager/Dial.lean (what a Transport may report)",
                 "facade translation Model/Manager/Facade.lean tied to Litep2p::next_event (src/lib.rs) by the facade-level runs "
                 "(the Litep2p object is assembled field by field as Litep2p::new does, around the scripted transport)",
-                "adapter /repo/src/verif/c05.rs (scripted Transport, next() / next_event() polled to quiescence per op; a next() future that is "
+                "adapter /repo/src/verif/c05.rs (scripted Transport delegating the synchronous part of dial/open/cancel to a real, never "
+                "polled TcpTransport; connection ids of inbound connections through the real TransportHandle::next_connection_id; "
+                "next() / next_event() polled to quiescence per op; a next() future that is "
                 "pending inside an arm is kept and resumed, recognised by a second poll that does not reach the transport), "
                 "harness, verif.py, checks/c05.py, checks/mgr_common.py",
                 "tokio mpsc semantics (bounded channel, a blocked send() is served before later try_send()s)",
@@ -179,7 +188,7 @@ def oracle(case, out):
         t = base_op(op.split(" -> ")[0]).split()
         if o == "skipped" or o == "bad-op":
             break
-        if o == "busy":
+        if o == "busy" or M.is_aux(op):
             continue
         if t[0] == "facade":
             if o == "ok":
